@@ -32,7 +32,10 @@ for r in reports:
         fs = re.findall(r"^\s+(\S+)\(.*\)\n\s+(\S+?):(\d+)", b, re.M)
         fr = None
         for fn, path, line in fs:
-            if "/go/src/" in path or "/runtime/" in path or "/verif/" in path:
+            # the innermost frame inside the repository under test (frames of the toolchain's standard library, of
+            # third-party modules and of the harness are skipped: a race on a hash state or an LRU list is attributed
+            # to the repository code that shares the object)
+            if not path.startswith("/repo/"):
                 continue
             fr = (fn.split("/")[-1], path.replace("/repo/", ""))
             break
